@@ -69,6 +69,7 @@ var Mutants = map[string][]Mutant{
 		{"Paths.Settle ignores its rule", "path_intersection.go", `return bentleyOttmann\(ps, nil, opSettle, fillRule\)`, `return bentleyOttmann(ps, nil, opSettle, NonZero)`, "E9.wrapper"},
 	},
 	"C03": {
+		{"closed-loop quadratic flattened to its start point", "path_util.go", `(?s)if chord\.Dot\(chord\) == 0\.0 \{.*?\} else if a := `, "if a := ", "E10.flat-rest-turning-point"},
 		{"flat rest of a quadratic emitted as its chord alone", "path_util.go", `(?s)(\t\tif t >= 1\.0 \{\n)\t\t\t// the rest is flat, but a control point.*?(\t\t\tbreak\n\t\t\}\n\n\t\t_, _, _, p0, p1, p2 = quadraticBezierSplit)`, "${1}${2}", "E10.flat-rest-turning-point"},
 		{"position of the rest not clamped after the join (reverts fix ff037ad)", "path.go", `(?s)(\t\t\tp = p\.Join\(r\) // join the rest of the base path\n)\t\t\tif len\(p\.d\) < i \{\n[^\n]*\n\t\t\t\ti = len\(p\.d\)\n\t\t\t\}\n`, "$1", "E11.cursor-revalidated-after-join"},
 		{"circular arcs collapse to the chord when its sagitta is within tolerance", "path_util.go", `(?s)(func flattenEllipticArc\(.*?\t\tr := rx\n)`, "${1}\t\tif chord := end.Sub(start).Length(); r-math.Sqrt(math.Max(0.0, r*r-chord*chord/4.0)) <= tolerance {\n\t\t\tq := &Path{}\n\t\t\tq.MoveTo(start.X, start.Y)\n\t\t\tq.LineTo(end.X, end.Y)\n\t\t\treturn q\n\t\t}\n", "E11.arc-flag-consulted"},
